@@ -66,6 +66,24 @@ def main():
     if tier != 'quick':
         specs += [('amap-W3-chunk2-8tasks', consts(Universe='{1,2,3}', MinCols=3, MaxCols=3, Modes='{"pairwise"}', Workers=3, ChunkSize=2, ShuffleAll='FALSE')),
                   ('amap-W3-5tasks', consts(Universe='{1,2,3,4,5}', MinCols=5, MaxCols=5, Workers=3, ShuffleAll='FALSE'))]
+    # liveness of the pool: every submitted chunk is taken, finished and gathered, all batches complete (fair workers);
+    # control: without fairness the property fails
+    wdl = E.workdir('c09l')
+    try:
+        cl = consts(Universe='{1,2,3}', MinCols=3, MaxCols=3, Modes='{"pairwise"}', Workers=2, ChunkSize=2, ShuffleAll='FALSE')
+        cfgl = E.write_cfg(os.path.join(wdl, 'live.cfg'), spec='FairSpec', constants=cl, properties=['AllBatchesComplete', 'SubmittedIsGathered'])
+        rl = E.run_tlc('RankGraph', cfgl, timeout=900)
+        E.require_ok(rl, 'RankGraph/liveness')
+        V.add_tlc(rl, 'RankGraph/liveness')
+        V.tlc_violation(rl, 'RankGraph/liveness')
+        cfgn = E.write_cfg(os.path.join(wdl, 'nofair.cfg'), spec='Spec', constants=cl, properties=['AllBatchesComplete'])
+        rn = E.run_tlc('RankGraph', cfgn, timeout=900)
+        E.require_ok(rn, 'RankGraph/liveness-control')
+        if rn.ok:
+            raise E.MachineryError('liveness control: AllBatchesComplete holds without fairness (vacuous)')
+        V.notes['liveness'] = 'FairSpec => AllBatchesComplete, SubmittedIsGathered (TLC, 2 workers, chunks of 2); control: violated without fairness'
+    finally:
+        E.cleanup(wdl)
     names = {1: 'a', 2: 'label', 3: 'labelx', 4: 'zeta', 5: 'zz'}
     frame_rows = 60
     base = [rng.randrange(2) for _ in range(frame_rows)]
